@@ -35,6 +35,19 @@ func (op *PRelu) Apply(inputs []tensor.Tensor) ([]tensor.Tensor, error) {
 		return nil, err
 	}
 
+	// The data of a rank-0 tensor is a scalar, not a slice.
+	if len(x.Shape()) == 0 {
+		x, err = ops.AddExtraDimsToTensor(x, 1)
+		if err != nil {
+			return nil, err
+		}
+
+		slope, err = ops.AddExtraDimsToTensor(slope, 1)
+		if err != nil {
+			return nil, err
+		}
+	}
+
 	y := tensor.NewDense(x.Dtype(), x.Shape())
 
 	switch x.Dtype() {
@@ -56,6 +69,12 @@ func (op *PRelu) Apply(inputs []tensor.Tensor) ([]tensor.Tensor, error) {
 
 	if err != nil {
 		return nil, err
+	}
+
+	if len(inputs[0].Shape()) == 0 {
+		if err := y.Reshape(); err != nil {
+			return nil, err
+		}
 	}
 
 	return []tensor.Tensor{y}, nil
